@@ -174,7 +174,7 @@ func C16(c *fw.Ctx) {
 		pre   func() []*model.N
 	}
 	var sets []valueSet
-	for _, s := range []string{"abc", "", "12", " "} {
+	for _, s := range []string{"abc", "", "12", " ", "\u0995\u09DF", "e\u0301x"} {
 		s := s
 		sets = append(sets, valueSet{fmt.Sprintf("string %q", s), stringProducers(s), func() *model.N { return model.Str(s) }, func() []*model.N {
 			return []*model.N{
